@@ -344,6 +344,11 @@ static bool do_op(shadow *sh, int op, mismatch *mm, bool counting)
     bool was_fresh = sh->fresh;
     if (op != OP_GET_NAME) sh->fresh = 0;
     if (is_reinit(op) || is_verifylike(op)) { memset(sh, 0, sizeof *sh); }
+    else if (op == OP_GET_RAW && !(was_fresh && (type0 == BINSON_TYPE_OBJECT || type0 == BINSON_TYPE_ARRAY))) {
+        /* get_raw on anything but a container that next / a lookup has JUST returned is outside the protocol: it
+         * may enter and leave whatever follows, so the application no longer knows whether it is inside an object */
+        if (sh->sp > 0 || ret) { memset(sh, 0, sizeof *sh); sh->unknown = 1; }
+    }
     else if (ret && e1 == BINSON_ERROR_NONE) {
         switch (op) {
         case OP_INTO_OBJ: case OP_INTO_ARR: {
